@@ -31,6 +31,7 @@ struct Case {
   int state = 0;               // handle state at destroy, see run_case
   bool via_cxx = false;        // through reproc::process's destructor
   int cxx_release = 0;
+  int prior_stop = -1;         // -1 none; 0/1/2: reproc_stop({wait, 0 / 40 / 700}) before destroy
   bool failed_first = false;   // a failing start (with a different deadline and policy) precedes the real one on the same handle
   int64_t epoch = 1000000;
 };
@@ -116,6 +117,9 @@ Case decode(Tape &t, long sweep)
   // how the C++ object lets go of its child: 0 destructor, 1 an empty process move-assigned over it,
   // 2 another (never started) process move-assigned over it, 3 moved into a new object whose destructor runs
   c.cxx_release = c.via_cxx ? (int) t.pick(4) : 0;
+  // an explicit stop with ANOTHER policy (a short wait that sends nothing) before destroy:
+  // destroy still has to run the policy given at start
+  c.prior_stop = c.state == 0 && t.chance(1, 5) ? (int) t.pick(3) : -1;
   return c;
 }
 
@@ -156,6 +160,7 @@ CaseResult run_case(Tape &t, long sweep)
                      .kv("deadline", c.deadline)
                      .kv("destroy_called_after", (long long) c.stop_after)
                      .kv("pre", c.pre)
+                     .kv("explicit_stop_with_another_policy_first", c.prior_stop)
                      .kv("failed_start_first", c.failed_first)
                      .str();
   uint64_t h = (uint64_t) c.state * 7 + c.via_cxx;
@@ -304,6 +309,20 @@ CaseResult run_case(Tape &t, long sweep)
       cached = r0;
     }
   }
+  if (c.prior_stop >= 0 && !reaped) {
+    static const int pw[3] = { 0, 40, 700 };
+    w.call_begins(100000);
+    int rs;
+    if (c.via_cxx) rs = cxx->stop({ { reproc::stop::wait, reproc::milliseconds(pw[c.prior_stop]) }, { reproc::stop::noop, reproc::milliseconds(0) }, { reproc::stop::noop, reproc::milliseconds(0) } }).first;
+    else {
+      reproc_stop_actions ps = { { REPROC_STOP_WAIT, pw[c.prior_stop] }, { REPROC_STOP_NOOP, 0 }, { REPROC_STOP_NOOP, 0 } };
+      rs = reproc_stop(ch.p, ps);
+    }
+    if (rs >= 0) {
+      reaped = true;
+      cached = rs;
+    }
+  }
   vt::Kid &k = w.kids[(size_t) ch.kid];
   model::ChildScript cs;
   cs.term_mode = c.term_mode;
@@ -423,6 +442,7 @@ CaseResult run_case(Tape &t, long sweep)
   if (all_noop) res.cls("default-policy");
   if (c.via_cxx) res.cls("via-cxx-destructor");
   if (c.via_cxx && c.cxx_release) res.cls("via-cxx-move");
+  if (c.prior_stop >= 0) res.cls("explicit-stop-with-another-policy-first");
   if (interrupted_wait) res.cls("destroy-after-failed-wait");
   if (c.failed_first) res.cls("restarted-after-failed-start");
   if (c.deadline) res.cls("with-deadline");
